@@ -28,7 +28,9 @@ def make_copy():
     d = tempfile.mkdtemp(prefix="rsdd-selftest.")
     dst = os.path.join(d, "repo")
     # copy the current working tree (tracked + untracked sources), without build output or .git
-    subprocess.run(["rsync", "-a", "--exclude", "target", "--exclude", ".git", facts.REPO + "/", dst + "/"], check=True)
+    # RSDD_COPY_FROM: a snapshot of the clean tree, so that this development tool can run while seeded.py has /repo patched
+    src = os.environ.get("RSDD_COPY_FROM", facts.REPO)
+    subprocess.run(["rsync", "-a", "--exclude", "target", "--exclude", ".git", src + "/", dst + "/"], check=True)
     return d, dst
 
 
